@@ -126,6 +126,8 @@ def generate(rnd, tier):
             sampler = {"callable": "recording", "inner": inner} if rnd.random() < 0.75 else inner
             if "callable" in sampler and rnd.random() < 0.12:
                 sampler["reenter"] = True
+        if "callable" in sampler and rnd.random() < 0.25:
+            sampler["outer_strat"] = "by_label"  # a built-in flag next to a callable sampler: nothing for it to act on
         cfg = {"nb_samples": rnd.randint(2, 8 if big else 60) if rnd.random() < 0.8 else rnd.randint(2, 6),
                "bootstrap_method": rnd.choice(["quantile", "bc", "bca"])}
         op = {"op": "band", "fn": fn, "args": args, "sampler": sampler, "cfg": cfg, "arg_types": arg_types}
@@ -237,6 +239,21 @@ class CallbackFault(Exception):
     pass
 
 
+def _leak_probes(L):
+    """Small documented calls that work in a fresh process (checked on the unchanged tree by the self-test below):
+    scores at 0.0 (nextafter towards the subnormals), ties, rates at 0 and 1."""
+    a = L.Scores(pos=[0.0, 1.0, 2.0, 2.0], neg=[-1.0, 0.0, 0.5])
+    b = L.Scores(pos=[1e-300, 0.5, 3.0], neg=[-2.0, 0.0, 1e-300], score_class="neg")
+    out = []
+    for src in (a, b):
+        out.append(("roc_with_ci", src, {"alpha": 0.1}))
+        out.append(("roc_with_ci", src, {"alpha": 0.1, "fnr": np.array([0.0, 0.5, 1.0]), "nb_points": 5}))
+        out.append(("pointwise_band_ci", src, {"alpha": 0.1, "nb_points": 5}))
+        out.append(("simultaneous_joint_region_ci", src, {"alpha": 0.1, "nb_points": 5}))
+        out.append(("fixed_width_band_ci", src, {"alpha": 0.1, "nb_points": 10}))
+    return out
+
+
 class RecSampler:
     def __init__(self, kind, inner_config, which=0, raise_at=None):
         self.kind, self.inner, self.which = kind, inner_config, which
@@ -324,6 +341,9 @@ def execute(scn, ctx):
 
     if easy:
         probe("easy_source")
+    import warnings as _warnings
+
+    env0 = (dict(np.geterr()), len(_warnings.filters))
     for step, op in enumerate(scn["ops"]):
         if op["op"] == "reseed":
             seam.seed(op["seed"])
@@ -348,7 +368,7 @@ def execute(scn, ctx):
             sampler = RecSampler(s_kind, inner, sspec.get("which", 0), raise_at=ra)
             sampler.reenter = bool(sspec.get("reenter"))
             sampler.raise_exc = next((f.get("exc") for f in (op.get("faults") or []) if f["kind"] == "sampler_raise"), None)
-            config = M.build_config(dict(cfg, sampling_method={"callable": s_kind}), sampler=sampler)
+            config = M.build_config(dict(cfg, sampling_method={"callable": s_kind}, stratified_sampling=sspec.get("outer_strat")), sampler=sampler)
         else:
             config = M.build_config(dict(sspec, **cfg))
         kw = {}
@@ -396,6 +416,24 @@ def execute(scn, ctx):
         def bad(name, detail):
             viol.append({"invariant": f"C16.{name}", "detail": f"{detail} [op {step}]", "tags": tags})
 
+        # A call (failed or not) that leaves NumPy's error state or the warnings filters changed affects every later
+        # call of the process.  The consequence is what counts: documented calls on small fixed inputs, which work under
+        # the state the process had before, are repeated under the state it was left in.
+        env_now = (dict(np.geterr()), len(_warnings.filters))
+        if env_now != env0:
+            probe("process_state_changed")
+            for pf_name, pf_src, pf_kw in _leak_probes(L):
+                try:
+                    pf = L.roc_with_ci if pf_name == "roc_with_ci" else getattr(L.experimental, pf_name)
+                    with _warnings.catch_warnings():
+                        pf(pf_src, config=L.BootstrapConfig(nb_samples=3, bootstrap_method="quantile", sampling_method=lambda s_: s_), **pf_kw)
+                except Exception as e:  # noqa: BLE001
+                    bad("accepts_documented_arguments", f"after {fn_name} left the process with NumPy error state {env_now[0]} (before: {env0[0]}) and "
+                                                        f"{env_now[1]} warnings filters (before: {env0[1]}), {pf_name}(pos={np.asarray(pf_src.pos).tolist()}, "
+                                                        f"neg={np.asarray(pf_src.neg).tolist()}) raises {type(e).__name__}: {e}")
+                    break
+            np.seterr(**env0[0])
+            del _warnings.filters[: max(0, len(_warnings.filters) - env0[1])]
         if M.fingerprint(src) != fp_before or M.fingerprint(list(callers.values())) != cfp or M.fingerprint(arrs) != arr_fp:
             bad("inputs_unchanged", f"{fn_name} modified the Scores object or a caller-supplied array")
         outcome = "ok"
